@@ -607,6 +607,28 @@ pub fn check_audit(c: &ACase) -> Outcome {
     };
     let sel = snap(rig.math(), &state);
     let r = rec.borrow();
+    // A leapfrog whose end state lies more than max_energy_error above the energy of the trajectory's start must have
+    // been reported as a divergence (the end snapshot is then absent); an accepted state above the threshold is an
+    // undetected divergence.
+    if let Some(init_snap) = &r.init {
+        let e0 = init_snap.energy;
+        for (k, (s0, end)) in r.steps.iter().enumerate() {
+            if let Some(e) = end {
+                let de = e.energy - e0;
+                if !(de <= c.max_energy_error * (1.0 + 1e-12) + 1e-9 * (1.0 + e0.abs())) {
+                    o.label("energy-above-threshold");
+                    o.set_fail(
+                        "C03:undetected-divergence",
+                        format!("leapfrog {k} ({s0} -> {}) was accepted into the trajectory with an energy error of {de:e} relative to the start (max_energy_error {:e})", e.idx, c.max_energy_error),
+                    );
+                    return o;
+                }
+                if de > 0.5 * c.max_energy_error {
+                    o.label("energy-error-near-threshold");
+                }
+            }
+        }
+    }
     let mut au = Audit { rec: &r, pos: 0, borderline: false, mindepth: c.mindepth as u32, error: None };
     let mut tree = Blk { lo: 0, hi: 0, depth: 0 };
     let mut reason = "maxdepth";
@@ -743,7 +765,8 @@ impl Part for AuditPart {
         128
     }
     fn strategy(&self, _t: Tier) -> BoxedStrategy<ACase> {
-        (1usize..=6)
+        // mostly small dimensions; one case in six is large enough for the unrolled SIMD body of the U-turn products
+        prop_oneof![5 => 1usize..=6, 1 => prop_oneof![Just(16usize), Just(17), Just(33), Just(40), Just(64)]]
             .prop_flat_map(|d| {
                 (
                     density_strategy(d, 1),
@@ -753,7 +776,7 @@ impl Part for AuditPart {
                     proptest::collection::vec(-1.5f64..1.5, d),
                     1u64..=10,
                     prop_oneof![3 => Just(0u64), 1 => 1u64..=2],
-                    log_uniform(0.5, 1e3),
+                    prop_oneof![1 => log_uniform(0.02, 0.5), 3 => log_uniform(0.5, 1e3)],
                     any::<u64>(),
                 )
             })
@@ -774,7 +797,7 @@ impl Part for AuditPart {
         check_audit(c)
     }
     fn floors(&self) -> Vec<(&'static str, f64)> {
-        vec![("stop:turn-top", 0.15), ("stop:turn-sub", 0.05), ("stop:maxdepth", 0.1), ("stop:div", 0.01)]
+        vec![("stop:turn-top", 0.15), ("stop:turn-sub", 0.05), ("stop:maxdepth", 0.1), ("stop:div", 0.01), ("energy-error-near-threshold", 0.03)]
     }
 }
 
